@@ -32,6 +32,9 @@ fn install_panic_hook() {
             .location()
             .map(|l| format!("{}:{}", l.file(), l.line()))
             .unwrap_or_default();
+        if std::env::var("VHARNESS_SHOW_PANICS").is_ok() {
+            eprintln!("panic: {} @ {}", msg, loc);
+        }
         *LAST_PANIC.lock().unwrap_or_else(|e| e.into_inner()) = format!("{} @ {}", msg, loc);
     }));
 }
